@@ -148,11 +148,11 @@ type client struct {
 	accepted bool // passed the accept policy (as far as the model knows)
 	// sure: the server has certainly accepted the connection (accept callback seen, or a reply was received on it);
 	// a connection that merely completed the TCP handshake may still sit in the listen backlog when the listener is closed
-	sure bool
-	rejected bool
-	closedByUs bool
-	confirmed  bool // close callback seen after our disconnect
-	inflight   []byte // expected reply of an in-flight request (handler started, reply not yet read)
+	sure            bool
+	rejected        bool
+	closedByUs      bool
+	confirmed       bool   // close callback seen after our disconnect
+	inflight        []byte // expected reply of an in-flight request (handler started, reply not yet read)
 	inflightStarted bool
 }
 
